@@ -667,6 +667,177 @@ case_blockseq(uint64_t idx, void *arg) {
 }
 
 /* ------------------------------------------------------------------------------------------ */
+/* (E) short frame sequences on a stream, every segmentation with <= 2 cuts                      */
+/* A raw peer on a TCP or WebSocket connection sends the handshake (WS: upgrade request; both: CSM), then a
+ * sequence of frames from a catalogue of small valid, boundary-form and hostile frames; the bytes after the
+ * handshake are delivered to the server in every segmentation with at most two cuts.  Verdicts: sanitizers, no hang,
+ * canary.  (That valid frames are delivered the same way under every segmentation is C05's business; here the
+ * number of handler calls is only recorded.) */
+struct espace {
+  char name[48];
+  int ws, nframes, ncuts;
+};
+#define EF_N 9
+static size_t
+ws_frame(uint8_t *o, int opcode, const uint8_t *pl, size_t n, int lenform, int masked) {
+  size_t k = 0;
+  o[k++] = (uint8_t)(0x80 | opcode);
+  uint8_t mk = masked ? 0x80 : 0;
+  if (lenform == 0)
+    o[k++] = (uint8_t)(mk | n);
+  else if (lenform == 1) {
+    o[k++] = (uint8_t)(mk | 126);
+    o[k++] = (uint8_t)(n >> 8);
+    o[k++] = (uint8_t)n;
+  } else {
+    o[k++] = (uint8_t)(mk | 127);
+    for (int i = 7; i >= 0; i--)
+      o[k++] = (uint8_t)(i < 2 ? n >> (8 * i) : 0);
+  }
+  static const uint8_t key[4] = {0x11, 0x22, 0x33, 0x44};
+  if (masked) {
+    memcpy(o + k, key, 4);
+    k += 4;
+  }
+  for (size_t i = 0; i < n; i++)
+    o[k++] = masked ? (uint8_t)(pl[i] ^ key[i & 3]) : pl[i];
+  return k;
+}
+static size_t
+eframe(int ws, int f, uint8_t *o) {
+  static const uint8_t get_r[] = {0x01, 0x01, 0x77, 0xB1, 'r'}; /* WS: len nibble 0 */
+  static const uint8_t csm[] = {0x00, 0xE1};
+  uint8_t big[40] = {0x01, 0x01, 0x78, 0xB1, 'r', 0xFF};
+  memset(big + 6, 'p', 20);
+  if (ws) {
+    switch (f) {
+    case 0: return ws_frame(o, 2, csm, 2, 0, 1);
+    case 1: return ws_frame(o, 2, get_r, 5, 0, 1);
+    case 2: return ws_frame(o, 2, get_r, 5, 1, 1); /* 16-bit length form */
+    case 3: return ws_frame(o, 2, get_r, 5, 2, 1); /* 64-bit length form */
+    case 4: return ws_frame(o, 2, get_r, 0, 0, 1); /* empty frame */
+    case 5: return ws_frame(o, 9, csm, 2, 0, 1);   /* ping */
+    case 6: return ws_frame(o, 2, big, 26, 0, 1);
+    case 7: return ws_frame(o, 2, get_r, 1, 0, 1); /* shorter than a CoAP header */
+    default: return ws_frame(o, 2, get_r, 5, 0, 0); /* not masked */
+    }
+  }
+  switch (f) {
+  case 0: memcpy(o, csm, 2); return 2;
+  case 1: { static const uint8_t m[] = {0x21, 0x01, 0x77, 0xB1, 'r'}; memcpy(o, m, 5); return 5; }
+  case 2: { /* Len 13-form: 2 option bytes + marker + 20 payload = 23 -> ext 10 */
+    o[0] = 0xD1; o[1] = 10; o[2] = 0x01; o[3] = 0x78; o[4] = 0xB1; o[5] = 'r'; o[6] = 0xFF; memset(o + 7, 'p', 20); return 27; }
+  case 3: o[0] = 0x00; o[1] = 0x00; return 2;   /* empty message */
+  case 4: o[0] = 0x00; o[1] = 0xE2; return 2;   /* ping */
+  case 5: { /* token length 13 form: TKL nibble 13, ext byte 0 => 13-byte token */
+    o[0] = 0x2D; o[1] = 0x01; o[2] = 0x00; memset(o + 3, 0x55, 13); o[16] = 0xB1; o[17] = 'r'; return 18; }
+  case 6: o[0] = 0xE0; o[1] = 0x00; o[2] = 0x00; o[3] = 0x01; return 4; /* Len 14-form announcing 269 bytes that never come */
+  case 7: o[0] = 0x0F; o[1] = 0x01; return 2;   /* TKL 15 */
+  default: { static const uint8_t m[] = {0x11, 0x01, 0x79, 0xFF}; memcpy(o, m, 4); return 4; } /* marker without payload */
+  }
+}
+static void
+case_streamcuts(uint64_t idx, void *arg) {
+  struct espace *e = arg;
+  uint64_t x = idx;
+  int fr[4];
+  uint8_t stream[400];
+  size_t n = 0;
+  for (int i = 0; i < e->nframes; i++) {
+    fr[i] = (int)(x % EF_N);
+    x /= EF_N;
+    n += eframe(e->ws, fr[i], stream + n);
+  }
+  size_t c1 = 0, c2 = 0;
+  if (e->ncuts >= 1) {
+    c1 = (size_t)(x % 120);
+    x /= 120;
+  }
+  if (e->ncuts >= 2) {
+    c2 = (size_t)(x % 120);
+    x /= 120;
+    if (c2 <= c1)
+      return; /* ordered pairs only */
+  }
+  if ((e->ncuts >= 1 && (c1 == 0 || c1 >= n)) || (e->ncuts >= 2 && c2 >= n))
+    return;
+  ns_init();
+  memset(&S, 0, sizeof S);
+  if (!cs_server_new(&S, COAP_PROTO_UDP) || !cs_client_new(&S, COAP_PROTO_UDP)) {
+    vx_fail("harness:setup", "set-up failed");
+    return;
+  }
+  coap_address_t la, ca;
+  ns_addr(&la, 1, e->ws ? 80 : 5683);
+  ns_addr(&ca, 9, 50001);
+  coap_new_endpoint(S.sc, &la, e->ws ? COAP_PROTO_WS : COAP_PROTO_TCP);
+  ns_stream_auto = 0;
+  ns_stream_t *st = ns_stream_raw_connect(&ca, &la);
+  if (!st) {
+    vx_fail("harness:stream-connect", "connect failed");
+    return;
+  }
+  snprintf(mut_desc, sizeof mut_desc, "frames %d,%d,%d cuts %zu,%zu", fr[0], e->nframes > 1 ? fr[1] : -1, e->nframes > 2 ? fr[2] : -1, c1, c2);
+  target_k = 0;
+  last_orig_len = n < sizeof last_orig ? n : sizeof last_orig;
+  memcpy(last_orig, stream, last_orig_len);
+  if (e->ws) {
+    ns_stream_raw_write(st, 0, (const uint8_t *)WS_UPGRADE, sizeof WS_UPGRADE - 1);
+    ns_stream_release_all(st, 1);
+  }
+  uint8_t hs[16];
+  size_t hn = eframe(e->ws, 0, hs); /* CSM */
+  ns_stream_raw_write(st, 0, hs, hn);
+  ns_stream_release_all(st, 1);
+  int calls0 = S.srv_calls;
+  ns_stream_raw_write(st, 0, stream, n);
+  size_t at = 0;
+  if (e->ncuts >= 1) {
+    ns_stream_release(st, 1, c1 - at);
+    at = c1;
+  }
+  if (e->ncuts >= 2) {
+    ns_stream_release(st, 1, c2 - at);
+    at = c2;
+  }
+  ns_stream_release(st, 1, n - at);
+  ns_prepare_all();
+  /* the peer keeps talking: three large valid frames in one piece (a reader left in a wrong state by the sequence
+   * above meets enough bytes to run past any buffer it believes it is filling) */
+  {
+    static uint8_t tail[4600];
+    uint8_t msg[1500];
+    size_t tn = 0, ml;
+    for (int k = 0; k < 3; k++) {
+      if (e->ws) {
+        msg[0] = 0x01; msg[1] = 0x01; msg[2] = (uint8_t)(0x80 + k); msg[3] = 0xB1; msg[4] = 'r'; msg[5] = 0xFF;
+        memset(msg + 6, 'T', 1394);
+        ml = 1400;
+        tn += ws_frame(tail + tn, 2, msg, ml, 1, 1);
+      } else {
+        /* Len 14-form: options(2) + marker(1) + payload(1394) = 1397 = 269 + 1128 */
+        uint8_t *o = tail + tn;
+        o[0] = 0xE1; o[1] = (uint8_t)(1128 >> 8); o[2] = (uint8_t)1128; o[3] = 0x01; o[4] = (uint8_t)(0x80 + k); o[5] = 0xB1; o[6] = 'r'; o[7] = 0xFF;
+        memset(o + 8, 'T', 1394);
+        tn += 8 + 1394;
+      }
+    }
+    ns_stream_raw_write(st, 0, tail, tn);
+    ns_stream_release_all(st, 1);
+    ns_prepare_all();
+  }
+  vxp_count(11, 1);
+  vxp_count(12, (uint64_t)(S.srv_calls - calls0));
+  ns_stream_auto = 1;
+  cs_pump(&S, 100, 100000);
+  if (!cs_canary(&S))
+    failb(e->ws ? S_WS : S_TCP, "streamcuts:canary-lost", "after the frame sequence a fresh session's GET /r was not answered");
+  cs_free(&S);
+  ns_fini();
+  vxp_distinct(vx_fnv(stream, n, (uint64_t)(c1 * 131 + c2) * 2 + (uint64_t)e->ws));
+}
+
+/* ------------------------------------------------------------------------------------------ */
 static void
 discard_log(coap_log_t l, const char *m) {
   (void)l;
@@ -727,6 +898,20 @@ main(int argc, char **argv) {
   for (int i = 0; i < nds; i++)
     if (vxp_replay_if_match(ds[i].name, case_blockseq, &ds[i]))
       return 0;
+  static struct espace es[12];
+  int nes = 0;
+  for (int ws = 0; ws < 2; ws++)
+    for (int v = 0; v < (T ? 3 : 2); v++) {
+      /* v0: 2 frames x all cut pairs; v1: 3 frames x single cuts; v2 (thorough): 3 frames x all cut pairs */
+      es[nes].ws = ws;
+      es[nes].nframes = v == 0 ? 2 : 3;
+      es[nes].ncuts = v == 1 ? 1 : 2;
+      snprintf(es[nes].name, sizeof es[nes].name, "streamcuts:%s:frames%d:cuts%d", ws ? "ws" : "tcp", es[nes].nframes, es[nes].ncuts);
+      nes++;
+    }
+  for (int i = 0; i < nes; i++)
+    if (vxp_replay_if_match(es[i].name, case_streamcuts, &es[i]))
+      return 0;
   for (int i = 0; i < nas; i++)
     if (vxp_replay_if_match(as[i].name, case_parse, &as[i]))
       return 0;
@@ -753,6 +938,11 @@ main(int argc, char **argv) {
     vxp_enumerate(&c, case_alone, NULL, &st);
     total += st.done;
   }
+  for (int i = 0; i < nes; i++) {
+    struct vxp_config c = {.space = es[i].name, .total = ipow(EF_N, es[i].nframes) * (es[i].ncuts == 2 ? 120 * 120 : 120), .chunk = 64};
+    vxp_enumerate(&c, case_streamcuts, &es[i], &st);
+    total += st.done;
+  }
   for (int i = 0; i < nds; i++) {
     struct vxp_config c = {.space = ds[i].name, .total = 4 * ipow(ds[i].nnum, ds[i].len), .chunk = 16};
     vxp_enumerate(&c, case_blockseq, &ds[i], &st);
@@ -777,6 +967,8 @@ main(int argc, char **argv) {
   vx_ev_int("lone_malformed", (long long)vxp_counter(5));
   vx_ev_int("lone_wellformed_mutants", (long long)vxp_counter(6));
   vx_ev_int("ws_close_cases", (long long)vxp_counter(7));
+  vx_ev_int("streamcut_cases", (long long)vxp_counter(11));
+  vx_ev_int("streamcut_handler_calls", (long long)vxp_counter(12));
   vx_ev_int("blockseq_sequences", (long long)vxp_counter(8));
   vx_ev_int("blockseq_bodies_delivered", (long long)vxp_counter(9));
   vx_ev_int("blockseq_replies", (long long)vxp_counter(10));
@@ -787,7 +979,11 @@ main(int argc, char **argv) {
              "mutation of 6 lone requests to an idle server (malformed => no handler, <=1 error/RST reply); (C) WebSocket close with a half received "
              "frame and pending bytes, all splits; (D) all sequences of 1..5 (thorough 6) well-formed Block1 and Q-Block1 PUT requests from one raw peer with "
              "block numbers in any order from 0..11 (length 5: 0..8, thorough 0..10; length 6: 0..8), with/without M=0 on the last one, with/without a "
-             "block-size change in the third, against a SINGLE_BODY server: bounds (ASan/UBSan), delivered body complete and correct, canary; distinct = distinct accepted byte strings / mutation descriptors");
+             "block-size change in the third, against a SINGLE_BODY server: bounds (ASan/UBSan), delivered body complete and correct, canary; (E) after the handshake, all sequences of 2 frames from a 9-frame "
+             "catalogue per stream transport (TCP: CSM, GET, 13-form length, empty, ping, extended token, 14-form length announcing bytes that never "
+             "come, TKL 15, marker without payload; WS: CSM, GET in the 7-bit/16-bit/64-bit length forms, empty, ping, longer GET, 1-byte, unmasked) "
+             "under every segmentation with <= 2 cuts, and of 3 frames with 1 cut (thorough: 2 cuts), each followed by three 1400-byte valid frames in one "
+             "piece; distinct = distinct accepted byte strings / mutation descriptors");
   vx_ev_assumption("malformed = rejected by the harness's own RFC 7252 structure parser (wire.h); option-content semantics are not judged");
   vx_ev_assumption("not all byte strings: bounded lengths/alphabets and single mutations per state (double mutations are not enumerated)");
   return vx_finish();
